@@ -237,9 +237,24 @@ def rule_boxsize(ctx, bs):
         c = callee(t)
         if c and c["fn"] in ("core::num::<impl u64>::checked_sub", "core::num::<impl u32>::checked_sub"):
             consts.append(op_const_int(t[2][1]))
-    plain_sub = [st for blk in h.blocks for st in blk[0] if st[0] == "=" and st[2][0] == "bin" and st[2][1] in ("Sub", "SubWithOverflow")]
-    if sorted(x for x in consts if x is not None) == [8, 16] and not plain_sub:
-        ctx.ok(rid, "header-size-checked_sub", "xlbox.checked_sub(16), sbox.checked_sub(8); no plain subtraction", nontrivial=True, fn=h)
+    # a plain `size - K` is as good when an ordering comparison on the same value dominates it (`if size < 16 { Err }`, or the
+    # range arms of `match size { 1..=7 => Err, _ => size - 8 }`)
+    from .fieldrange import locally_guarded
+    plain_sub = []
+    for b_, blk in enumerate(h.blocks):
+        if blk[2]:
+            continue
+        for st in blk[0]:
+            if st[0] == "=" and st[2][0] == "bin" and st[2][1] in ("Sub", "SubWithOverflow"):
+                k_ = op_const_int(st[2][3])
+                l_ = op_local(st[2][2])
+                if k_ is not None and l_ is not None and locally_guarded(h, l_, b_, skip=st):
+                    consts.append(k_)
+                else:
+                    plain_sub.append(st)
+    if sorted(set(x for x in consts if x is not None)) == [8, 16] and not plain_sub:
+        ctx.ok(rid, "header-size-checked_sub", "the 64-bit size is reduced by 16 and the 32-bit size by 8, each checked (checked_sub, or a "
+               "dominating comparison on the same value)", nontrivial=True, fn=h)
     else:
         ctx.bad(rid, "header-size-checked_sub", "box header sizes are not reduced by checked_sub(16)/checked_sub(8) only (found checked_sub %s, %d plain "
                 "subtractions): a size smaller than its header underflows" % (consts, len(plain_sub)), fn=h)
@@ -338,9 +353,10 @@ def rule_boxhdr(ctx, bs):
         ctx.anchor_missing(rid, HDR_PARSE)
         return
     ctx.seen(h)
-    sub8 = [b for b, t in h.calls() if callee(t) and callee(t)["fn"] == "core::num::<impl u32>::checked_sub"]
+    # the 32-bit-size arm: where the four size bytes are assembled into a u32 (and reduced by the header size)
+    sub8 = [b for b, t in h.calls() if callee(t) and callee(t)["fn"] in ("core::num::<impl u32>::checked_sub", "core::num::<impl u32>::from_be_bytes")]
     if not sub8:
-        ctx.anchor_missing(rid, "u32::checked_sub in ContainerBoxHeader::parse")
+        ctx.anchor_missing(rid, "the 32-bit size arm (u32::from_be_bytes / checked_sub) in ContainerBoxHeader::parse")
         return
     reached = explore_marker(h, sub8)
     if reached is None:
@@ -669,8 +685,9 @@ def rule_consumed(ctx, bs):
 AUX = "jxl_oxide::aux_box::AuxBoxList"
 
 
-def first_calls(f, start, names, limit=300):
-    """callee short names (among `names`) reachable from block `start` before a return"""
+def first_calls(f, start, names, limit=300, crate=None, depth=1):
+    """callee short names (among `names`) reachable from block `start` before a return; with `crate`, private helpers of that crate
+    that the blocks call are looked into (one level): a handler moved into `start_box()` still reaches its callees"""
     out = set()
     seen = set()
     work = [start]
@@ -683,11 +700,16 @@ def first_calls(f, start, names, limit=300):
         if t[0] == "call":
             c = callee(t)
             if c:
-                short = c["fn"].split("::")[-1]
                 full = c["fn"]
+                hit = False
                 for n in names:
                     if full.endswith(n):
                         out.add(n)
+                        hit = True
+                if not hit and crate is not None and depth > 0:
+                    h = crate.fns.get(c.get("res") or full) or crate.fns.get(full)
+                    if h is not None and h is not f and len(h.blocks) < 200:
+                        out |= first_calls(h, 0, names, limit, crate, depth - 1)
         work.extend(f.succs(b))
     return out
 
@@ -730,7 +752,7 @@ def rule_auxbox(ctx):
             if vn not in want:
                 continue
             names, mode = want[vn]
-            got = first_calls(he, listed.get(i, t[3]), names)
+            got = first_calls(he, listed.get(i, t[3]), names, crate=ox)
             ok = (got == names) if mode == "all" else bool(got)
             if ok:
                 ctx.ok(rid, "handle_event|%s" % vn, "%s -> %s" % (vn, sorted(got)), nontrivial=True, fn=he)
